@@ -45,13 +45,18 @@ class Cfg:
         self.name, self.profile, self.feat, self.lite = name, profile, feat, lite
 
     @property
+    def feat_tag(self):
+        # True: all of zeroize, hazmat, bcrypt; False: none; "fz": zeroize only; "fhb": hazmat + bcrypt only
+        return {True: "feat", False: "nofeat"}.get(self.feat, self.feat)
+
+    @property
     def label(self):
-        return f"{self.name}-{self.profile}-{'feat' if self.feat else 'nofeat'}" + ("-lite" if self.lite else "")
+        return f"{self.name}-{self.profile}-{self.feat_tag}" + ("-lite" if self.lite else "")
 
     @property
     def build_key(self):
         b = BUILD_OF.get(self.name, self.name)
-        return f"{b}-{'feat' if self.feat else 'nofeat'}" + ("-lite" if self.lite else "")
+        return f"{b}-{self.feat_tag}" + ("-lite" if self.lite else "")
 
     @property
     def target_dir(self):
@@ -86,8 +91,12 @@ class Cfg:
         if self.lite:
             a.append("--no-default-features")
             feats.append("lite")
-        if self.feat:
+        if self.feat is True:
             feats.append("allfeat")
+        elif self.feat == "fz":
+            feats.append("fz")
+        elif self.feat == "fhb":
+            feats += ["fh", "fb"]
         if feats:
             a += ["--features", ",".join(feats)]
         return a
